@@ -11,13 +11,14 @@ def set_profile(ex, st, R, n, nb, tag):
         v = z3.Real('%s_%d' % (tag, i)); st.sym[R['proj0'] + 4 * i] = (4, 'f', v); vs.append(v)
     return vs
 
-def zstate(R, N):
-    """a fresh state in which the impedance samples above N/2 (which the harness' random table leaves zero, as the built-in models do) hold arbitrary values - a full-length user table.
-    The wake potential never reads them (C06); the CSR spectrum is formed over all N bins, so anything an earlier call left in the upper half of a shared buffer shows there"""
-    st = State()
-    for k in range(N // 2 + 1, N):
-        st.sym[R['zdata'] + 8 * k] = (4, 'f', z3.Real('zu%d_re' % k)); st.sym[R['zdata'] + 8 * k + 4] = (4, 'f', z3.Real('zu%d_im' % k))
+def zset(st, R, N, tag, ztail=0):
+    """the impedance object the field shares holds arbitrary values `tag`: all N samples (the harness' random table is zero above N/2, as the built-in models are - a full-length user table
+    is not; the wake potential never reads the upper half (C06), the CSR spectrum is formed over all N bins), except the exact zeros of a table that ends below the top frequency (ztail)"""
+    for k in range(N):
+        if ztail and N // 2 - ztail < k <= N // 2: continue
+        st.sym[R['zdata'] + 8 * k] = (4, 'f', z3.Real('%s%d_re' % (tag, k))); st.sym[R['zdata'] + 8 * k + 4] = (4, 'f', z3.Real('%s%d_im' % (tag, k)))
     return st
+def zstate(R, N, tag='zc', ztail=0): return zset(State(), R, N, tag, ztail)
 
 CUT_ON = Fraction(f32(3e11))
 def do_ops(ex, st, R, op, cutoff):
@@ -59,13 +60,13 @@ def job_history(res, n, N, spacing, buckets, maxlen, cutoff_on):
     # reference: a fresh object on the current profile - every path of the query, each with its own result
     fresh = {}
     for q in 'wpc':
-        fft = UFFFT(plans); ex = Exec(mod, snap, RealDom(), {'fftwf_execute': fft}); st = zstate(R, N)
+        fft = UFFFT(plans); ex = Exec(mod, snap, RealDom(), {'fftwf_execute': fft}); st = zstate(R, N, 'zc', ztail)
         set_profile(ex, st, R, n, nb, 'cur')
         fresh[q] = [(s1.pc, observe(ex, s1, R, q, n, nb, N)) for s1 in do_ops(ex, st, R, q, cutoff)]
         account(res, ex, mod, [])
     hist = [h for L in range(1, maxlen + 1) for h in itertools.product('wpcC', repeat=L)]
     for h in hist:
-        fft = UFFFT(plans); ex = Exec(mod, snap, RealDom(), {'fftwf_execute': fft}); states = [zstate(R, N)]
+        fft = UFFFT(plans); ex = Exec(mod, snap, RealDom(), {'fftwf_execute': fft}); states = [zstate(R, N, 'zo', ztail)]      # during the history the shared impedance object holds other values than at the query (Impedance::operator+= / operator= between two calls)
         for j, op in enumerate(h):
             nxt = []
             for st in states:
@@ -74,10 +75,10 @@ def job_history(res, n, N, spacing, buckets, maxlen, cutoff_on):
         for q in 'wpc':
             for st in states:
                 s2 = st.fork(); s2.frames = []
-                cur = set_profile(ex, s2, R, n, nb, 'cur')
+                cur = set_profile(ex, s2, R, n, nb, 'cur'); zset(s2, R, N, 'zc', ztail)
                 for s3 in do_ops(ex, s2, R, q, cutoff):
                     got = observe(ex, s3, R, q, n, nb, N); account(res, ex, mod, [s3])
-                    def cex(m, h=h, q=q): return {'replay': 'history', 'n': n, 'N': N, 'spacing': spacing, 'buckets': list(buckets), 'history': list(h), 'query': q, 'cutoff': float(cutoff), 'cutoff2': 0.0 if cutoff else float(CUT_ON), 'ztail': ztail, 'zupper': [x for k in range(N // 2 + 1, N) for x in ((lambda v: 0.6 if v is None else v)(mval(m, z3.Real('zu%d_re' % k))), (lambda v: 0.0 if v is None else v)(mval(m, z3.Real('zu%d_im' % k))))],
+                    def cex(m, h=h, q=q): return {'replay': 'history', 'n': n, 'N': N, 'spacing': spacing, 'buckets': list(buckets), 'history': list(h), 'query': q, 'cutoff': float(cutoff), 'cutoff2': 0.0 if cutoff else float(CUT_ON), 'ztail': ztail, 'z': [mval(m, z3.Real('zo%d_%s' % (k, c))) for k in range(N) for c in ('re', 'im')], 'zlast': [mval(m, z3.Real('zc%d_%s' % (k, c))) for k in range(N) for c in ('re', 'im')],
                                                     'profiles': [[(mval(m, z3.Real('old%d_%d' % (j, i))) or 0.0) for i in range(nb * n)] for j in range(len(h))], 'cur': [mval(m, v) for v in cur]}
                     # the fresh object's result on the same current profile: the reference path whose condition the current profile satisfies
                     differs = z3.Or(*[z3.And(z3.And(*fpc) if fpc else z3.BoolVal(True), z3.Or(*[a != b for a, b in zip(got, fgot)])) for fpc, fgot in fresh[q]])
@@ -92,14 +93,16 @@ def replayer(bld):
     def rp(path, c):
         n, N = c['n'], c['N']
         base = {'n': n, 'N': N, 'spacing': c['spacing'], 'buckets': c['buckets'], 'cutoff': c.get('cutoff', 0.0), 'cutoff2': c.get('cutoff2', 0.0), 'ztail': c.get('ztail', 0)}
-        if c.get('zupper'): base['zupper'] = [float(x) for x in c['zupper']]
+        zl = [float(x) for x in c['zlast']] if c.get('zlast') else None
         # concrete profiles: model values may be 0 everywhere except a few cells; make the old profiles clearly different from the current one
         import random as _r; rr = _r.Random(5)
         olds = [[float(v) if v else rr.uniform(0.1, 1.0) for v in p] for p in c['profiles']]; cur = [float(v or 0.0) for v in c['cur']]      # earlier profiles: generic where the model left them open; the current profile exactly as the model has it (an empty or negative profile may be what matters)
         a = dict(base); a['ops'] = list(c['history']) + [c['query']]
+        if zl: a['z'] = [float(x) for x in c['z']]; a['zlast'] = zl
         for j, p in enumerate(olds): a['prof%d' % j] = p
         a['prof%d' % len(olds)] = cur
         b = dict(base); b['ops'] = [c['query']]; b['prof0'] = cur
+        if zl: b['z'] = zl
         key = {'w': 'wake', 'p': 'padded', 'c': 'csr'}[c['query']]
         ra = native_run(bld, a, 'c18a'); rb = native_run(bld, b, 'c18b')
         va = ra[key]; va = va[-1] if isinstance(va[0], list) else va; vb = rb[key]
@@ -122,6 +125,8 @@ def main(tier):
         cfgs += [(3, 12, 4, (0, 2), 3, 0), (3, 12, 4, (2, 0, 1), 2, 0), (4, 15, 5, (2, 0), 3, 1), (5, 17, 6, (0, 2), 2, 0)]
         cfgs += [(4, 24, 5, (1, 0), 3, 0), (4, 24, 0, (0,), 3, 400), (4, 32, 5, (0, 1), 2, 0), (6, 48, 7, (2, 0), 2, 1), (4, 50, 5, (0,), 2, 0), (4, 8, 0, (0,), 4, 0), (3, 12, 4, (0, 2), 4, 1)]      # lengths whose c2r plan destroys its input, a short impedance table, histories of length 4
     jobs = [(job_history, c) for c in cfgs]
+    import c14 as _c14
+    jobs += [(_c14.job_process_state, ())]      # results must not depend on which object of the process came first (function-local / file-scope statics)
     chk.bounds = {'configurations (n, N, spacing, bucket numbers, history length, cutoff on)': cfgs, 'histories': 'every sequence of wakePotential / padBunchProfiles / updateCSR (with the configured and with the other cutoff setting) up to the stated length, each with its own arbitrary profile, followed by each of the three queries',
                   'transform lengths': 'powers of two, composite and prime N up to 17, plus 24, 32, 48, 50 (c2r plans that use their input as scratch space)'}
     chk.assumptions = ['fftwf_execute is an uninterpreted function of its entire input buffer (so any stale cell changes the result term); r2c writes cells 0..N/2 of its output, c2r reads cells 0..N/2 and leaves its input unchanged',
